@@ -310,6 +310,16 @@ def _rest(ck, repo):
         # type conditions and the runtime-type check are answered from the possible-type sets
         from .c03 import possible_type_sets
         possible_type_sets(ck, repo)
+        ev = repo.func("tartiflette/coercers/outputs/abstract_coercer.py", "ensure_valid_runtime_type")
+        evv = FuncView(ev)
+        ep = ev.positional_params
+        binds = [n for n in walk_no_nested(ev.node) if isinstance(n, ast.Assign) and unparse(n.targets[0]) == "runtime_type"]
+        looked = [b for b in binds if unparse(b.value) == f"{ep[1]}.schema.find_type({ep[0]})"]
+        kept = [b for b in binds if unparse(b.value) == ep[0]]
+        ok = len(looked) == 1 and set(evv.conditions(looked[0])) == {(f"isinstance({ep[0]}, str)", "T")} and len(kept) == 2 and \
+            any(set(evv.conditions(b)) == {(f"isinstance({ep[0]}, str)", "F")} for b in kept) and any(evv.try_handlers_around(b) or any(contains(h, b) for h in evv.handlers()) for b in kept)
+        ck.ob("ensure_valid_runtime_type: a type *name* is looked up in this request's schema, an object type is taken as it is, an unknown name stays a name (and fails the object-type test)",
+              ok, ev, looked[0] if looked else ev.node, construct="runtime:name-lookup", detail=str([unparse(b)[:60] for b in binds]))
 
     # ---------------------------------------------------------------- R11
     # "spec-coerced arguments": the argument decision table and the per-declared-argument structure
